@@ -24,6 +24,9 @@ Open Scope N_scope.
    - every keyed event delivered before b s has been applied before the record and is in the
      checkpoint; every watermark delivered before b s has been acted on,
    - the checkpoint content is exactly what was applied before the record. *)
+(* The schedule may contain SourceComplete deliveries (IDone) and cancellations of parked calls (Cancel s):
+   the quantification "forall s < n_senders c" is over ALL configured runners, completed or not, and a
+   parked event whose call was cancelled is delivery > b s like any other, hence only in post. *)
 Theorem consistent_cut : forall c acts x post cid snap pre,
   exec c (init c) acts = Some x ->
   log (dt x) = post ++ LCkpt cid snap :: pre ->
@@ -70,12 +73,40 @@ Theorem barrier_id_checked : forall c x s cid cur m x',
   log (dt x') = LAct (s, length (nth s (sent x) [])) (IBar cid) false :: log (dt x).
 Proof.
   intros c x s cid cur m x' Hck Hmode Hne Hstep.
-  unfold step in Hstep. rewrite Hmode in Hstep. injection Hstep as <-.
+  unfold step in Hstep. rewrite Hmode in Hstep. destruct (active (dt x)); [discriminate|]. injection Hstep as <-.
   unfold handle_item. rewrite Hck.
   destruct (cid =? cur) eqn:E; [apply N.eqb_eq in E; contradiction|].
   cbn. repeat split; reflexivity.
 Qed.
 Print Assumptions barrier_id_checked.
+
+(* cancelling the context of a parked call changes nothing: the sender stays parked on the same checkpoint
+   (the code's wait, enqueue and handlers ignore the context) *)
+Theorem cancel_is_inert : forall c x s x', step c x (Cancel s) = Some x' ->
+  x' = x /\ exists g it, nth_error (modes x) s = Some (Parked g it).
+Proof.
+  intros c x s x' H. cbn in H. destruct (nth_error (modes x) s) as [[|g it|]|] eqn:E; try discriminate.
+  injection H as <-. split; eauto.
+Qed.
+Print Assumptions cancel_is_inert.
+
+(* a runner's SourceComplete does not change which barriers a checkpoint waits for *)
+Lemma active_flush tok y : active (flush tok y) = active y.
+Proof.
+  assert (Hf : forall l0 z, active (fold_left apply_item l0 z) = active z).
+  { induction l0 as [|b0 l0 IH]; intros z; cbn; auto. rewrite IH. reflexivity. }
+  unfold flush. destruct (batch y); auto.
+  destruct (match tok with None => true | Some t => t =? btoken y end); auto. rewrite Hf. reflexivity.
+Qed.
+Theorem source_complete_keeps_alignment : forall c x s x',
+  nth_error (modes x) s = Some (Passed IDone) -> step c x (Handle s) = Some x' ->
+  ckpt x' = ckpt x /\ done x' = done x /\ active (dt x') = remove_nat s (active (dt x)).
+Proof.
+  intros c x s x' Hm H. cbn in H. rewrite Hm in H. destruct (active (dt x)) as [|a l] eqn:Ea; [discriminate|].
+  injection H as <-. unfold handle_item. cbn [ckpt done dt set_active active]. repeat split.
+  rewrite active_flush. cbn [push_log active]. rewrite Ea. reflexivity.
+Qed.
+Print Assumptions source_complete_keeps_alignment.
 
 (* ---------- non-vacuity: enabled schedules with parked senders, a pending batch at the last barrier,
    two consecutive checkpoints, a rejected barrier, a time-out flush ---------- *)
@@ -84,7 +115,8 @@ Definition ex_acts : list action :=
   [Gate 0 (IEv 1 1 5); Handle 0; Gate 1 (IEv 2 2 0); Handle 1; Gate 0 (IBar 7); Gate 1 (IEv 3 1 0); Handle 0;
    Gate 0 (IEv 4 1 0); Handle 1; Gate 1 (IBar 8); Handle 1; Gate 1 (IBar 7); Handle 1; Wake 0; Handle 0;
    Gate 0 (IWm 9); Gate 1 (IWm 6); Handle 0; Handle 1; TimerFire; Timeout;
-   Gate 1 (IBar 9); Handle 1; Gate 1 (IEv 5 1 0); Gate 0 (IBar 9); Handle 0; Wake 1; Handle 1].
+   Gate 1 (IBar 9); Handle 1; Gate 1 (IEv 5 1 0); Cancel 1; Gate 0 (IDone); Handle 0; Gate 0 (IWm 11); Handle 0;
+   Gate 0 (IBar 9); Handle 0; Wake 1; Handle 1].
 Example ex_runs :
   option_map (fun x => (length (filter (fun e => match e with LCkpt _ _ => true | _ => false end) (log (dt x))),
                         existsb (fun e => match e with LAct _ (IBar 8) false => true | _ => false end) (log (dt x))))
